@@ -31,7 +31,10 @@ const (
 	errGetNopCache = "cannot get content from a NopCache"
 )
 
-const cacheContentExt = ".gz"
+const (
+	cacheContentExt = ".gz"
+	cacheTempExt    = ".tmp"
+)
 
 // A PackageCache caches package content.
 type PackageCache interface {
@@ -80,7 +83,24 @@ func (c *FsPackageCache) Get(id string) (io.ReadCloser, error) {
 func (c *FsPackageCache) Store(id string, content io.ReadCloser) error {
 	c.mu.Lock()
 	defer c.mu.Unlock()
-	cf, err := c.fs.Create(BuildPath(c.dir, id, cacheContentExt))
+	// Write to a temporary file and move it into place once it is complete,
+	// so that an interrupted write never leaves a truncated cache entry that
+	// later reads would take for the package contents.
+	path := BuildPath(c.dir, id, cacheContentExt)
+	tmp := path + cacheTempExt
+	if err := c.store(tmp, content); err != nil {
+		_ = c.fs.Remove(tmp)
+		return err
+	}
+	if err := c.fs.Rename(tmp, path); err != nil {
+		_ = c.fs.Remove(tmp)
+		return err
+	}
+	return nil
+}
+
+func (c *FsPackageCache) store(path string, content io.Reader) error {
+	cf, err := c.fs.Create(path)
 	if err != nil {
 		return err
 	}
